@@ -592,3 +592,71 @@ VARIANTS += [
          edits=[dict(file=AGF, find="                                    let (mut sum, carry) = integer_add::<_, AdditionStep, B>(", replace="                                    let (sum, _carry) = integer_add::<_, AdditionStep, B>("),
                 dict(file=AGF, find="                                    sum.push(carry);\n", replace="")]),
 ]
+
+# behaviour-preserving: a log line added in the middle of the analysed function (extra calls, branches and
+# temporaries in MIR must not disturb any rule)
+def _log_before(prop, name, file, line, indent):
+    return dict(prop=prop, name=name, benign=True,
+                edits=[dict(file=file, find=line, replace=indent + 'tracing::trace!("checkpoint");\n' + line)])
+
+VARIANTS += [
+    _log_before("C17", "log-in-read-bytes", SIF, "        // not enough bytes buffered\n", "        "),
+    _log_before("C17", "log-in-length-delimited-poll", SIF, "            // We need more data, poll the stream.\n", "            "),
+    _log_before("C16", "log-in-is-ready", BTF, "        let total_count = min(self.records_per_batch, remaining_records);\n", "        "),
+    _log_before("C01", "log-in-hybrid-protocol", HMF, "    let sharded_reports = compute_prf_and_reshard(ctx.clone(), shuffled_input_rows).await?;\n", "    "),
+    _log_before("C07", "log-in-bit-adder", ASF, "    let output = x + y + &*carry;\n", "    "),
+    _log_before("C07", "log-in-multiplication-protocol", SHM, "    let role = ctx.role();\n", "    "),
+    _log_before("C13", "log-in-send-config", GSF, "        let total_capacity = gateway_config.active.get() * record_size;\n", "        "),
+    _log_before("C20", "log-in-identify-cert", "ipa-core/src/config.rs", "        let cert = cert?;\n", "        "),
+    _log_before("C05", "log-in-malicious-shuffle", MSF, "    // prepare keys\n", "    "),
+    _log_before("C12", "log-in-truncated-sample", DSF, "        // samples are truncated to be within [0, 2*shift]\n", "        "),
+]
+
+VARIANTS += [
+    dict(prop="C03", name="pack-block-from-unrounded-width", expect="PACK-slots|small:slots-disjoint",
+         edits=[dict(file=DZV, find="        let block_id = (length * id_within_batch) >> BIT_ARRAY_SHIFT;\n        // segments are small", replace="        let block_id = (segment.len() * id_within_batch) >> BIT_ARRAY_SHIFT;\n        // segments are small")]),
+    dict(prop="C03", name="pack-position-via-mask", benign=True,
+         edits=[dict(file=DZV, find="        let position_within_block_start = (length * id_within_batch) % 256;", replace="        let position_within_block_start = (length * id_within_batch) & 255;")]),
+]
+
+OSF = "ipa-core/src/helpers/buffers/ordering_sender.rs"
+URF = "ipa-core/src/helpers/buffers/unordered_receiver.rs"
+SCF = "ipa-core/src/helpers/transport/stream/collection.rs"
+VARIANTS += [
+    dict(prop="C14", name="save-waker-keeps-first", expect="SLOT-latest|save_waker",
+         edits=[dict(file=OSF, find="        if let Some(waker) = v {\n            waker.clone_from(cx.waker());\n        } else {\n            v.replace(cx.waker().clone());\n        }", replace="        v.get_or_insert_with(|| cx.waker().clone());")]),
+    dict(prop="C14", name="save-waker-always-replace", benign=True,
+         edits=[dict(file=OSF, find="        if let Some(waker) = v {\n            waker.clone_from(cx.waker());\n        } else {\n            v.replace(cx.waker().clone());\n        }", replace="        v.replace(cx.waker().clone());")]),
+    dict(prop="C14", name="add-waker-keeps-old", expect="SLOT-latest|add_waker",
+         edits=[dict(file=URF, find="            if let Some(old) = self.wakers[index].as_mut() {\n                old.clone_from(waker);\n            } else {", replace="            if self.wakers[index].is_some() {\n                // already registered\n            } else {")]),
+    dict(prop="C13", name="rendezvous-keeps-old-waker", expect="WAKE-latest|add_waker",
+         edits=[dict(file=SCF, find="                StreamState::Waiting(old_waker) => {\n                    old_waker.clone_from(waker);\n                    None", replace="                StreamState::Waiting(_old_waker) => {\n                    None")]),
+]
+
+SVA = "ipa-core/src/secret_sharing/vector/array.rs"
+VARIANTS += [
+    dict(prop="C06", name="from-random-overlapping-blocks", expect="COVER-random|StdArray<Fp25519, 16>:blocks-tile-source",
+         edits=[dict(file=SVA, find="                        GenericArray::from_slice(&src[$item_len * i..$item_len * (i + 1)]).clone(),", replace="                        GenericArray::from_slice(&src[i..i + $item_len]).clone(),")]),
+    dict(prop="C06", name="from-random-offset-rewritten", benign=True,
+         edits=[dict(file=SVA, find="                        GenericArray::from_slice(&src[$item_len * i..$item_len * (i + 1)]).clone(),", replace="                        GenericArray::from_slice(&src[i * $item_len..i * $item_len + $item_len]).clone(),")]),
+]
+
+_C20H = _json.load(open(_os.path.join(_os.path.dirname(_os.path.abspath(__file__)), "c20_hoist.json")))
+NSF = "ipa-core/src/net/server/mod.rs"
+VARIANTS += [
+    dict(prop="C20", name="make-service-hoisted", benign=True,
+         edits=[dict(file=NSF, find=_C20H["benign"][0], replace=_C20H["benign"][1])]),
+    dict(prop="C20", name="make-service-hoisted-header-on-tls-arm", expect="ARM-tls|serve#3:tls-server-ignores-identity-header",
+         edits=[dict(file=NSF, find=_C20H["seeded"][0], replace=_C20H["seeded"][1])]),
+]
+
+HRF = "ipa-core/src/hpke/registry.rs"
+QPF = "ipa-core/src/query/processor.rs"
+VARIANTS += [
+    dict(prop="C10", name="single-key-registry-ignores-key-id", expect="KEY-lookup|<KeyRegistry<PrivateKeyOnly> as PrivateKeyRegistry>::private_key",
+         edits=[dict(file=HRF, find="        self.key(key_id).map(|sk| &**sk)", replace="        let sk = match &*self.keys {\n            [only] => Some(only),\n            _ => self.key(key_id),\n        };\n        sk.map(|sk| &**sk)")]),
+    dict(prop="C10", name="registry-key-off-by-one", expect="KEY-lookup|KeyRegistry::key:indexed-by-id",
+         edits=[dict(file=HRF, find="            key_id if key_id < self.keys.len() => Some(&self.keys[key_id]),", replace="            key_id if key_id + 1 < self.keys.len() => Some(&self.keys[key_id + 1]),")]),
+    dict(prop="C18", name="shard-status-fields-swapped", expect="FLOW-shard-status|error-carries-own-status",
+         edits=[dict(file=QPF, find="                my_status: status,\n                other_status: req.status,", replace="                my_status: req.status,\n                other_status: status,")]),
+]
